@@ -382,7 +382,10 @@ impl<H: Hal, const SIZE: usize> VirtQueue<H, SIZE> {
             // SAFETY: `self.used` points to a valid, aligned, initialised, dereferenceable, readable
             // instance of `UsedRing`.
             let avail_event = unsafe { (*self.used.as_ptr()).avail_event.load(Ordering::Acquire) };
-            self.avail_idx >= avail_event.wrapping_add(1)
+            // Compare as free-running 16-bit indices so that this stays correct when `avail_idx`
+            // wraps around: the device needs a notification if `avail_event` is behind
+            // `avail_idx`.
+            (self.avail_idx.wrapping_sub(avail_event).wrapping_sub(1) as i16) >= 0
         } else {
             // SAFETY: `self.used` points to a valid, aligned, initialised, dereferenceable, readable
             // instance of `UsedRing`.
